@@ -496,6 +496,10 @@ func (e *encodeState) string(s string, escapeHTML bool) {
 			switch b {
 			case '\\', '"':
 				e.WriteByte(b)
+			case '\b':
+				e.WriteByte('b')
+			case '\f':
+				e.WriteByte('f')
 			case '\n':
 				e.WriteByte('n')
 			case '\r':
@@ -503,7 +507,7 @@ func (e *encodeState) string(s string, escapeHTML bool) {
 			case '\t':
 				e.WriteByte('t')
 			default:
-				// This encodes bytes < 0x20 except for \t, \n and \r.
+				// This encodes bytes < 0x20 except for \b, \f, \n, \r and \t.
 				// If escapeHTML is set, it also escapes <, >, and &
 				// because they can lead to security holes when
 				// user-controlled strings are rendered into JSON
@@ -568,6 +572,10 @@ func (e *encodeState) stringBytes(s []byte, escapeHTML bool) {
 			switch b {
 			case '\\', '"':
 				e.WriteByte(b)
+			case '\b':
+				e.WriteByte('b')
+			case '\f':
+				e.WriteByte('f')
 			case '\n':
 				e.WriteByte('n')
 			case '\r':
@@ -575,7 +583,7 @@ func (e *encodeState) stringBytes(s []byte, escapeHTML bool) {
 			case '\t':
 				e.WriteByte('t')
 			default:
-				// This encodes bytes < 0x20 except for \t, \n and \r.
+				// This encodes bytes < 0x20 except for \b, \f, \n, \r and \t.
 				// If escapeHTML is set, it also escapes <, >, and &
 				// because they can lead to security holes when
 				// user-controlled strings are rendered into JSON
